@@ -1,6 +1,7 @@
 import AcraModel.AuditLog.ChainLemmas
 import AcraModel.AuditLog.ChainAlter
 import AcraModel.AuditLog.ParseLemmas
+import AcraModel.AuditLog.JsonRoundTrip
 import AcraModel.Crypto.Box
 /-!
 # C20 — the audit-log integrity chain verifies when intact and fails when altered
@@ -38,6 +39,20 @@ theorem fact_reader : lineReader = "reader" := by decide
 /-- the verifier skips exactly the three "no integrity part" errors -/
 theorem fact_verifierSkips :
     verifierSkips = ["ErrCefIntegrityExtract", "ErrPlaintextIntegrityExtract", "ErrJSONIntegrityExtract"] := by decide
+
+/-- JSON: `getBytes` is `json.Marshal(value)` and nothing else (no per-type fast path – seeded change C20-1) -/
+theorem fact_getBytes : getBytesBody = ["return json.Marshal(key)"] := by decide
+
+/-- JSON: `convertMapToBytes` sorts the keys and appends, for every key, delimiter ‖ key ‖ delimiter ‖
+`getBytes(value)` ‖ delimiter -/
+theorem fact_convertMapToBytes : convSortsKeys = true ∧ convValueBytes = "getBytes(parsed[key])" ∧
+    convAppends = ["[]byte(JSONKeyValueDelimiter)", "keyBytes", "[]byte(JSONKeyValueDelimiter)", "valueBytes", "[]byte(JSONKeyValueDelimiter)"] ∧
+    jsonDelimiter = "delimiter" ∧ integrityKey = "integrity" ∧ chainKey = "chain" ∧ newChainValue = "new" ∧ endChainValue = "end" := by decide
+
+/-- JSON: hook and parser decode the entry with the same function, an `encoding/json` decoder with `UseNumber`
+(number literals are kept as written – repair 51) that rejects data after the value -/
+theorem fact_jsonDecode : jsonHookDecodesWith = "unmarshalLogEntry" ∧ jsonParserDecodesWith = "unmarshalLogEntry" ∧
+    jsonDecodeCalls = ["json.NewDecoder", "decoder.UseNumber", "decoder.Decode", "decoder.Token"] := by decide
 
 /-! ## honest output verifies -/
 
@@ -184,6 +199,116 @@ theorem honest_cef_verifies (c : CryptoOps) (key : Bytes) (items : List LItem)
     simp
   · rw [hmap, hent]
 
+/-! ### JSON -/
+
+/-- what `render_parse_json_partial` assumes of a decoded formatter output `o` written in calculator state
+`st`: it is a Go map (`Canonical`: the model's representation), keys are valid UTF-8 and values are strings
+of valid UTF-8, number literals, booleans or `null` (`FlatObj` – whatever logrus' encoder made of the logged
+values: invalid UTF-8 arrives as U+FFFD, `[]byte` as base64 text, errors as their text); and the registered
+known findings are excluded: no key `integrity`, no key `chain` on the first entry of a chain
+(`honest-fails:json:chain-starts-with-end-message` is the case `chain: end` there), no `chain: "new"`
+elsewhere (`honest-fails:json:field-named-integrity-or-chain`). -/
+structure JsonClass (st : Calc) (o : Obj) : Prop where
+  canonical : Canonical o
+  flat : FlatObj o
+  noIntegrity : intKeyB ∉ keysOf o
+  noChainAtStart : st.prev.isNone = true → chainKeyB ∉ keysOf o
+  noChainNew : getKey chainKeyB o ≠ some (.str newValB)
+
+/-- **Render/parse for the JSON format, given that decoding inverts encoding on the line at hand.** For ANY
+decoded formatter output (nested arrays and objects included) outside the two known findings: if
+`unmarshalLogEntry` reads the map the hook marshalled back as that map, then `ParseEntry` recovers exactly
+the bytes the hook authenticated, the tag and the chain markers. -/
+theorem render_parse_json_of_roundtrip (c : CryptoOps) (st : Calc) (o : Obj)
+    (hint : intKeyB ∉ keysOf o) (hchain : st.prev.isNone = true → chainKeyB ∉ keysOf o)
+    (hnew : getKey chainKeyB o ≠ some (.str newValB))
+    (hrt : decodeTop (marshal (.obj (jsonHookMap c st o))) = some (some (jsonHookMap c st o))) :
+    jsonParse (jsonHookObj c st o).2 =
+      .entry ⟨conv o, (st.step c (conv o)).2.1, (st.step c (conv o)).2.2, jIsEnd o⟩ := by
+  unfold jsonParse jsonHookObj
+  simp only [marshal_obj_nonempty, Bool.false_eq_true, if_false, hrt]
+  exact jsonParseObj_hookMap c st o hint hchain hnew
+
+/-- **Render/parse for the JSON format, proved for scalar field values.** For every decoded formatter output
+whose values are strings (ANY valid UTF-8: quotes, backslashes, control characters, `<`, `>`, `&`, U+2028/9,
+line breaks, look-alike `integrity`/`chain` texts), number literals, booleans and `null`, and whose keys do
+not collide with the hook's own keys (`JsonClass`), the line the hook writes is parsed back into exactly
+the bytes the hook authenticated, the tag and the chain markers. No assumption on `encoding/json` is left:
+encoder and decoder are modelled and `decodeTop_marshal` is proved.
+
+`_partial`: values that are arrays or objects (slices, maps, structs passed as fields) are not covered by
+the PROOF of `decodeTop (marshal m) = m` (for them the statement is `render_parse_json_of_roundtrip`, with
+that equation as hypothesis; it is checked by correspondence on generated nested values). -/
+theorem render_parse_json_partial (c : CryptoOps) (st : Calc) (o : Obj) (h : JsonClass st o) :
+    jsonParse (jsonHookObj c st o).2 =
+      .entry ⟨conv o, (st.step c (conv o)).2.1, (st.step c (conv o)).2.2, jIsEnd o⟩ := by
+  obtain ⟨hc, hf⟩ := hookMap_class c st o h.canonical h.flat
+  exact render_parse_json_of_roundtrip c st o h.noIntegrity h.noChainAtStart h.noChainNew
+    (decodeTop_marshal _ hc hf)
+
+/-- every entry of a history is in the class, in the calculator state it is written in -/
+def JsonHonest (c : CryptoOps) (key : Bytes) : Calc → List JItem → Prop
+  | _, [] => True
+  | st, it :: r => JsonClass st it.fields ∧
+    JsonHonest c key (if it.resetAfter then Calc.new c key else (st.step c (conv it.fields)).1) r
+
+/-- the entry-level view of a JSON history -/
+def toPItemJ (it : JItem) : PItem := ⟨conv it.fields, jIsEnd it.fields, it.resetAfter⟩
+
+/-- **Honest JSON logs verify, whatever the messages and scalar fields contain.** The lines written by the
+JSON hook for any sequence of decoded formatter outputs of the class and chain restarts (restarts after
+end-of-chain entries), read back with the JSON parser, verify under the same key. -/
+theorem honest_json_verifies (c : CryptoOps) (key : Bytes) (items : List JItem)
+    (hcls : JsonHonest c key (Calc.new c key) items)
+    (hres : ∀ it ∈ items, it.resetAfter = true → jIsEnd it.fields = true) :
+    verify c key ((produceJson c key (Calc.new c key) items).map jsonParse) = .ok := by
+  have hmap : ∀ (its : List JItem) (st : Calc), JsonHonest c key st its →
+      (produceJson c key st its).map jsonParse = (produce c key st (its.map toPItemJ)).map Line.entry := by
+    intro its
+    induction its with
+    | nil => intro st _; rfl
+    | cons it r ih =>
+      intro st hh
+      obtain ⟨h1, h2⟩ := hh
+      simp only [produceJson, List.map_cons, produce, toPItemJ]
+      rw [render_parse_json_partial c st it.fields h1]
+      congr 1
+      exact ih _ h2
+  have hent : ∀ es : List Entry, entriesOf (es.map Line.entry) = es := by
+    intro es; induction es with
+    | nil => rfl
+    | cons e r ih => simp [entriesOf, ih]
+  apply honest_verifies c key (items.map toPItemJ)
+  · intro it hit
+    obtain ⟨l, hl, rfl⟩ := List.mem_map.mp hit
+    exact hres l hl
+  · intro l hl
+    rw [hmap items _ hcls] at hl
+    obtain ⟨e, _, rfl⟩ := List.mem_map.mp hl
+    simp
+  · rw [hmap items _ hcls, hent]
+
+/-- **Known finding `honest-fails:json:field-named-integrity-or-chain`, as a theorem about the model.** A
+user field named `integrity` is overwritten by the hook's tag: what the parser authenticates then lacks the
+field the hook authenticated. (Map with the single user field `integrity: "x"`, mid-chain.) -/
+theorem json_integrity_field_counterexample (c : CryptoOps) (st : Calc) (hmid : st.prev.isNone = false) :
+    ∃ d tag, jsonParseObj false (jsonHookMap c st [(intKeyB, .str [0x78])]) = .entry ⟨d, tag, false, false⟩ ∧
+      d ≠ conv [(intKeyB, .str [0x78])] := by
+  refine ⟨[], (st.step c (conv [(intKeyB, .str [0x78])])).2.1, ?_, by decide⟩
+  have hflag : (st.step c (conv [(intKeyB, JVal.str [0x78])])).2.2 = false := hmid
+  unfold jsonHookMap
+  simp only [hflag, Bool.false_eq_true, if_false, setKey, if_true]
+  unfold jsonParseObj
+  simp [getKey, hexDec_hexEnc, eraseKey, convWith]
+
+/-- **Known finding `edit-undetected:json:duplicate-key-shadowed`, as a theorem about the decoder.** A member
+put in front of the members of an object literal has no effect on the decoded map when its key occurs
+again later (the last duplicate wins) – hence none on what `ParseEntry` returns: the line can be extended
+that way without verification failing. -/
+theorem duplicate_key_shadow_undetected_counterexample (k : Bytes) (v : JVal) (members : List (Bytes × JVal))
+    (h : hasKey k (normalize members) = true) : normalize ((k, v) :: members) = normalize members := by
+  simp [normalize, h]
+
 /-- **The defect of the pinned tree (§8 #11), kept as a theorem about the old cutting rule.** With
 `strings.Split` + `len != 2` an honest line whose entry contains the split token is not recognised
 as protected at all. -/
@@ -257,6 +382,56 @@ theorem edit_detected (c : CryptoOps) (key : Bytes) (pre : List PItem) (a : PIte
     intro h
     exact hd (List.append_cancel_right (hnc.tag_inj h.symm).2)
   simp [entryAt, hne]
+
+/-- a value whose JSON text does not start with a quote: everything but a string (numbers as the decoder
+produces them start with `-` or a digit) -/
+def NotStringLike (v : JVal) : Prop := ∃ ch r, marshal v = ch :: r ∧ ch ≠ 0x22
+
+/-- **JSON: changing the TYPE of a value without changing its characters changes the authenticated bytes**
+(`"3"` ↔ `3`, `"true"` ↔ `true`, `"null"` ↔ `null`): `getBytes` is `json.Marshal`, whose output for a
+string starts with a quote and for nothing else. This is what seeded change C20-1 broke. -/
+theorem json_retype_changes_bytes (k s : Bytes) (v : JVal) (o : Obj) (hv : NotStringLike v) :
+    conv (setKey k (.str s) o) ≠ conv (setKey k v o) := by
+  intro e
+  have := (convWith_setKey_inj false k o (.str s) v).mp e
+  obtain ⟨ch, r, hm, hne⟩ := hv
+  simp only [getBytes] at this
+  rw [hm] at this
+  simp only [marshal, encStr, List.cons_append, List.nil_append] at this
+  exact hne (List.cons.inj this).1.symm
+
+/-- **JSON: a re-typed value is detected at the edited entry, at every position** (tag and markers kept,
+the value of one key changed from the string `s` to any non-string `v` – same characters or not). -/
+theorem json_retype_detected (c : CryptoOps) (key : Bytes) (pre : List PItem) (k s : Bytes) (v : JVal) (o : Obj)
+    (isEnd e' reset : Bool) (rest : List Line)
+    (hres : ∀ it ∈ pre, it.resetAfter = true → it.isEnd = true)
+    (hv : NotStringLike v)
+    (hnc : NoCollision c (pstate c key pre) (conv (setKey k v o)) (pstate c key pre) (conv (setKey k (.str s) o))) :
+    verify c key (honestLines c key pre ++
+        Line.entry { entryAt c (pstate c key pre) (conv (setKey k (.str s) o)) e' with data := conv (setKey k v o) } :: rest) =
+      .fail pre.length .mismatch :=
+  edit_detected c key pre ⟨conv (setKey k (.str s) o), isEnd, reset⟩ (conv (setKey k v o)) e' rest hres
+    (fun e => json_retype_changes_bytes k s v o hv e.symm) hnc
+
+/-- **JSON: any change of a number literal changes the authenticated bytes** (repair 51: the literal is
+authenticated as written, not its `float64` value): `9007199254740993` ≠ `9007199254740992`, `0.1` ≠ `0.10`. -/
+theorem json_number_edit_changes_bytes (k l l' : Bytes) (o : Obj) (hl : l ≠ []) (hl' : l' ≠ []) (hne : l ≠ l') :
+    conv (setKey k (.num l) o) ≠ conv (setKey k (.num l') o) := by
+  intro e
+  have := (convWith_setKey_inj false k o (.num l) (.num l')).mp e
+  have h1 : l.isEmpty = false := by cases l <;> simp_all
+  have h2 : l'.isEmpty = false := by cases l' <;> simp_all
+  simp [getBytes, marshal, h1, h2] at this
+  exact hne this
+
+/-- **Seeded change C20-1 as a theorem: with a raw-bytes fast path for strings in `getBytes` re-typing is
+NOT detected.** Under that variant of `getBytes` the string `s` and the number literal `s` give the same
+authenticated bytes, for every key and every map. `fact_getBytes` is what excludes the variant. -/
+theorem retype_undetected_with_string_fast_path_counterexample (k s : Bytes) (o : Obj) (hs : s ≠ []) :
+    convWith true (setKey k (.str s) o) = convWith true (setKey k (.num s) o) := by
+  rw [convWith_setKey_inj]
+  have h1 : s.isEmpty = false := by cases s <;> simp_all
+  simp [getBytes, marshal, h1]
 
 /-- **Removing an entry that is followed by another entry of its chain is detected at that next entry,
 wherever the removed entry stands** (mid-chain, first entry of the log, first entry of a later chain).
@@ -814,5 +989,51 @@ example : verify toyOps [7] ((produceLines toyOps [7] (Calc.new toyOps [7])
     intro it h
     simp at h
     rcases h with rfl | rfl | rfl <;> first | (intro _; decide) | (intro h; cases h))
+
+/-! ### non-vacuity of the JSON theorems -/
+
+/-- a decoded formatter output with an adversarial message and fields of every scalar kind (sorted keys):
+`{"amount":0.1,"level":"info","msg":"x\n\" integrity=00 <&>","n":-12,"ok":true,"user":null}` -/
+def sampleFields : Obj :=
+  [(strB "amount", .num (strB "0.1")), (strB "level", .str (strB "info")),
+   (strB "msg", .str (strB "x\n\" integrity=00 <&>")), (strB "n", .num (strB "-12")),
+   (strB "ok", .bool true), (strB "user", .null)]
+
+theorem numLit_0_1 : NumLit (strB "0.1") :=
+  (numLit_frac [0x30] [0x31] (by decide) (by decide) (by decide) (by decide) (by decide)).1
+
+theorem sample_class (st : Calc) : JsonClass st sampleFields where
+  canonical := by
+    unfold Canonical sampleFields
+    simp only [List.pairwise_cons]
+    decide
+  flat := by
+    intro kv hkv
+    simp only [sampleFields, List.mem_cons, List.mem_nil_iff, or_false] at hkv
+    have va : ∀ s : String, (∀ x ∈ strB s, x.toNat < 0x80) → ValidUtf8 (strB s) := fun s h => validUtf8_ascii _ h
+    rcases hkv with rfl | rfl | rfl | rfl | rfl | rfl
+    · exact ⟨va _ (by decide), .num _ numLit_0_1⟩
+    · exact ⟨va _ (by decide), .str _ (va _ (by decide))⟩
+    · exact ⟨va _ (by decide), .str _ (va _ (by decide))⟩
+    · exact ⟨va _ (by decide), .num _ (numLit_int [0x31, 0x32] (by decide) (by decide) (by decide)).2⟩
+    · exact ⟨va _ (by decide), .bool true⟩
+    · exact ⟨va _ (by decide), .null⟩
+  noIntegrity := by decide
+  noChainAtStart := fun _ => by decide
+  noChainNew := by
+    rw [(getKey_none_iff _ _).mpr (by decide)]
+    simp
+
+/-- `honest_json_verifies` on a history of two such entries -/
+example : verify toyOps [7] ((produceJson toyOps [7] (Calc.new toyOps [7])
+    [⟨sampleFields, false⟩, ⟨sampleFields, false⟩]).map jsonParse) = .ok :=
+  honest_json_verifies toyOps [7] _ ⟨sample_class _, sample_class _, trivial⟩ (by
+    intro it h
+    simp at h
+    rcases h with rfl | rfl <;> (intro h; cases h))
+
+/-- `json_retype_changes_bytes` on `"3"` ↦ `3` -/
+example : conv (setKey (strB "n") (.str (strB "3")) sampleFields) ≠ conv (setKey (strB "n") (.num (strB "3")) sampleFields) :=
+  json_retype_changes_bytes _ _ _ _ ⟨0x33, [], by decide, by decide⟩
 
 end AcraModel.Props.C20
